@@ -151,8 +151,19 @@ fn model(bits: usize, op: Op, args: &[V]) -> Expect {
             if n == 0 {
                 return is(V::U(vec![]));
             }
-            let r = pow2(64 * n);
-            let rinv = (&r % &md).modinv(&md).expect("harness: R invertible modulo odd m");
+            // R^-1 mod m is the same for every operand pair of a modulus: cache the last one per thread
+            thread_local! {
+                static RINV: std::cell::RefCell<(Vec<u64>, BigUint)> = std::cell::RefCell::new((vec![], BigUint::zero()));
+            }
+            let mkey: Vec<u64> = (if sq { &args[1] } else { &args[2] }).limbs().to_vec();
+            let rinv = RINV.with(|c| {
+                let mut c = c.borrow_mut();
+                if c.0 != mkey {
+                    let r = pow2(64 * n);
+                    *c = (mkey.clone(), (&r % &md).modinv(&md).expect("harness: R invertible modulo odd m"));
+                }
+                c.1.clone()
+            });
             let e = (&a * &b * rinv) % &md;
             is(un(&e, n)).nt(true)
         }
